@@ -250,7 +250,7 @@ theorem reader_finishes {sk sk' : Tid → Nat} {r : Tid} {L : Nat} (hr : Reach c
 
 /-- writer program points past the first `with self._version_lock` of `writer()` (the re-acquire `wAcq` apart) -/
 def arrivedPc : Pc → Bool
-  | .wTest | .wMkTxn | .wClrEv | .wRelA | .wNewEv | .wAppend | .wRelB | .wWait | .wSetupId | .wSetupCopy | .wReturn | .wBody | .cAcq | .cAppend | .cPrune | .cNodes | .rAcq | .eTxnNone | .eTestW | .ePop | .eSet | .eRel => true
+  | .wTest | .wMkTxn | .wClrEv | .wRelA | .wNewEv | .wAppend | .wRelB | .wWait | .wSetupId | .wSetupCopy | .wReturn | .wBody | .cAcq | .cAppend | .cPrune | .cNodes | .cUndo | .rAcq | .eTxnNone | .eTestW | .ePop | .eSet | .eRel => true
   | _ => false
 
 @[simp] theorem arrivedPc_idle : arrivedPc .idle = false := rfl
@@ -272,6 +272,7 @@ def arrivedPc : Pc → Bool
 @[simp] theorem arrivedPc_cAppend : arrivedPc .cAppend = true := rfl
 @[simp] theorem arrivedPc_cPrune : arrivedPc .cPrune = true := rfl
 @[simp] theorem arrivedPc_cNodes : arrivedPc .cNodes = true := rfl
+@[simp] theorem arrivedPc_cUndo : arrivedPc .cUndo = true := rfl
 @[simp] theorem arrivedPc_rAcq : arrivedPc .rAcq = true := rfl
 @[simp] theorem arrivedPc_eTxnNone : arrivedPc .eTxnNone = true := rfl
 @[simp] theorem arrivedPc_eTestW : arrivedPc .eTestW = true := rfl
